@@ -248,8 +248,23 @@ def _length_for(i: int, n: int) -> int:
     return min(MAX_CALLS, 4 + int((f - 0.24) / 0.76 * 5))
 
 
+# witnesses of earlier findings, kept as directed cases (shortest histories that exposed a mechanism)
+REGRESSION_CASES = [
+    # 3932ee3: the tracking task is cancelled (connection cut) while it is cancelling its own retry timer
+    {'steps': [{'op': 't', 'u': 'u1', 'f': 'TRANSFER', 'gap': ['y', 0]}, {'op': 'u', 'u': 'u1', 'f': 'TRANSFER', 'gap': ['rx', 2]},
+               {'op': 't', 'u': 'u1', 'f': 'TRANSFER', 'gap': ['rx', 8]}, {'op': 't', 'u': 'u1', 'f': 'FRIEND', 'gap': ['y', 6]},
+               {'op': 't', 'u': 'u1', 'f': 'REQUESTED', 'gap': ['y', 0]}, {'op': 't', 'u': 'u1', 'f': 'TRANSFER', 'gap': ['y', 7]},
+               {'op': 'x', 'mode': 'cut', 'gap': ['rx', 0], 'wait': 12.0},
+               {'op': 't', 'u': 'u1', 'f': 'REQUESTED', 'gap': ['d', 0.003, 0]},
+               {'op': 't', 'u': 'u1', 'f': 'REQUESTED', 'gap': ['d', 0.05, 0]}],
+     'beh': {'u1': ['notexists', 'exists', 'silence']}, 'world_tag': '0:56859:'},
+]
+
+
 def cases(tier: str, seed: int) -> list[dict]:
     out = exhaustive_cases() + send_failure_sweep()
+    for k, c in enumerate(REGRESSION_CASES):
+        out.append(dict(c, mode='regression', seed=seed, idx=k))
     n = N_RANDOM[tier]
     for i in range(n):
         c = gen_random(seed, i, _length_for(i, n))
@@ -763,6 +778,8 @@ def run_case(params: dict) -> dict:
         return run
 
     tag = f"{params.get('seed', 0)}:{params.get('idx', params.get('variant'))}:{params.get('k', '')}"
+    if params.get('world_tag'):
+        tag = params['world_tag']       # regression cases keep the world (latencies) they were found in
     out = run_world(f'{ID}:{tag}', main, wall_timeout=120)
     if out.inconclusive:
         res['inconclusive'] = out.inconclusive
